@@ -17,6 +17,7 @@ use crate::Result;
 /// can be used together with most states.
 pub struct LinkV02 {
     name: String,
+    #[serde(serialize_with = "crate::models::serialize_artifacts")]
     materials: BTreeMap<VirtualTargetPath, TargetDescription>,
     env: Option<BTreeMap<String, String>>,
     command: Command,
